@@ -189,7 +189,7 @@ def physical_result(R, fr):
     rh = (fr.angles == "right-handed")
     out = dict(points=physical_points(R, fr), ss=R["sum_of_squares"], dof=R["dof"], defect=R["defect"],
                equations=R["equations"], unknowns=R["unknowns"], aposteriori=R["aposteriori"],
-               iterations=R["iterations"], connected=R["connected"])
+               iterations=R["iterations"], connected=R["connected"], apriori=R.get("apriori"))
     obs = {}
     for o in R["observations"]:
         tag = o["tag"]
@@ -292,7 +292,11 @@ def compare_physical(A, B, tol_m=1e-7, rel=1e-6, what=("points", "obs", "stats",
                         bad.append(("obs:residual:" + k[0], "%s residual %.6f vs %.6f" % (k, ra, rb), k))
                     if sa is not None and sb is not None and abs(sa - sb) > 1e-6 + rel * max(abs(sa), abs(sb)):
                         bad.append(("obs:stdev:" + k[0], "%s stdev %.9g vs %.9g" % (k, sa, sb), k))
-                    if qa is not None and qb is not None and abs(qa - qb) > 2e-3 + rel * max(abs(qa), abs(qb)):
+                    # qrr = 1/p - q_LL is a difference: its uncertainty follows the larger term q_LL = (stdev / m0)^2
+                    # (m0: the smaller of the a priori and a posteriori reference deviation, the conservative choice)
+                    m0s = [m for m in (A.get("apriori"), A.get("aposteriori")) if m]
+                    qll = (max(sa or 0.0, sb or 0.0) / min(m0s)) ** 2 if m0s else 0.0
+                    if qa is not None and qb is not None and abs(qa - qb) > 2e-3 + rel * (max(abs(qa), abs(qb)) + 2 * qll):
                         bad.append(("obs:qrr:" + k[0], "%s qrr %.3f vs %.3f" % (k, qa, qb), k))
                     # f = 100 (1 - stdev of the adjusted / stdev of the observed value): 3 decimals printed
                     if fa is not None and fb is not None and abs(fa - fb) > 2e-3 + 100 * max(rel, 1e-6):
